@@ -63,7 +63,7 @@ def journal_parts(ctx):
             tg = n.targets
         for t in tg:
             a = P.self_attr(t, add.self_name)
-            if a and a != mirror and a not in stored:
+            if a and a != mirror and a not in stored and a not in P.inert_attrs(fj):       # statistics counters are not the offset
                 stored.append(a)
     if len(stored) != 1:
         raise AnalysisError('running end offset of the file journal not identified (add() assigns %s)' % (stored or 'no attribute'))
@@ -397,6 +397,57 @@ def r_record_layout(ctx):
     else:
         ctx.violation('%s.__init__:reader-loop-bound' % fj.name, init.loc(loops[0]) if loops else init.loc(),
                       'the reopening reader does not walk `offset < published end offset` from the first record offset and store the end offset afterwards', instance=inst)
+    # ... and does not stop early at a record the writer can produce: a guard on the record size in front of a break /
+    # return must be false for every size >= the fixed (idx, term) part (an empty command gives exactly that size)
+    if loops:
+        loop = loops[0]
+        size_vars = set()
+        for d in ast.walk(loop):
+            if isinstance(d, ast.Assign) and len(d.targets) == 1 and isinstance(d.targets[0], ast.Name) and any(
+                    isinstance(c, ast.Call) and isinstance(c.func, ast.Attribute) and c.func.attr == 'unpack' and c.args and isinstance(c.args[0], ast.Constant)
+                    and c.args[0].value == len_fmt[0] for c in ast.walk(d.value)):
+                size_vars.add(d.targets[0].id)
+
+        def exits(stmts, guards, in_inner_loop):
+            for st in stmts:
+                if isinstance(st, (ast.Break, ast.Return, ast.Raise)) and not (isinstance(st, ast.Break) and in_inner_loop):
+                    yield st, list(guards)
+                elif isinstance(st, ast.If):
+                    for x in exits(st.body, guards + [(st.test, True)], in_inner_loop):
+                        yield x
+                    for x in exits(st.orelse, guards + [(st.test, False)], in_inner_loop):
+                        yield x
+                elif isinstance(st, (ast.For, ast.While)):
+                    for x in exits(st.body, guards, True):
+                        yield x
+                elif isinstance(st, (ast.With, ast.Try)):
+                    for x in exits(st.body, guards, in_inner_loop):
+                        yield x
+        for st, guards in exits(loop.body, [], False):
+            inst2 = 'reader does not stop at a record the writer can produce'
+            ctx.tick()
+            consts = [c.value for g, pol in guards for c in ast.walk(g) if isinstance(c, ast.Constant) and isinstance(c.value, int) and not isinstance(c.value, bool)]
+            cands = sorted(set(v for v in [H, H + 1, H + 2, 2 * H, 255, 256, 65535, 65536, 2 ** 31, 2 ** 32 - 1] + [c + d for c in consts for d in (-1, 0, 1)] if v >= H))
+            names = set(x.id for g, pol in guards for x in ast.walk(g) if isinstance(x, ast.Name))
+            if not guards or not names or not names <= size_vars:
+                ctx.unproven(inst2, init.loc(st), 'early exit `%s` of the reader loop is not guarded by a test on the record size alone' % unparse(st)[:40])
+                continue
+            hit = None
+            try:
+                for v in cands:
+                    env = dict((nm, v) for nm in names)
+                    if all(bool(U.eval_arith(g, env)) == pol for g, pol in guards):
+                        hit = v
+                        break
+            except AnalysisError:
+                ctx.unproven(inst2, init.loc(st), 'guard of the early exit not evaluated')
+                continue
+            if hit is not None:
+                ctx.violation('%s.__init__:reader-stops-at-valid-record' % fj.name, init.loc(st),
+                              'the reopening reader leaves its loop when the record size is %d, but add() writes records of every size >= %d (the fixed part, for an empty command): '
+                              'that record and everything after it is lost on reopen, and the next append overwrites it' % (hit, H), instance=inst2)
+            else:
+                ctx.ok(inst2, init.loc(st), 'guard false for every record size >= %d' % H)
     # writer: size field on both sides of the body
     for n in ast.walk(add.node):
         if isinstance(n, ast.Assign) and isinstance(n.value, ast.BinOp):
@@ -458,6 +509,48 @@ def r_bounded_write(ctx):
             ctx.violation('%s:slice-store-after-single-resize' % m.qualname, m.loc(st),
                           'the slice store `%s` is reached on a path where %s <= capacity is not established (a record larger than the grown file raises / truncates): %s'
                           % (unparse(st.targets[0]), upper.key, res.path_str(n.id, bad) if bad is not None else ''), instance=inst)
+        # a failed in-place resize (platforms without mremap: the handler of the resize call) must still grow the file by
+        # the missing amount and map it again before the store -- the tests never take this branch on Linux
+        for t in [x for x in ast.walk(m.node) if isinstance(x, ast.Try)]:
+            rz = [c for s_ in t.body for c in ast.walk(s_) if isinstance(c, ast.Call) and isinstance(c.func, ast.Attribute) and c.func.attr == 'resize' and c.args]
+            if not rz:
+                continue
+            for hd in t.handlers:
+                inst2 = '%s: failed resize is made up for by growing the file' % m.qualname
+                ctx.tick()
+                if hd.body and isinstance(hd.body[-1], ast.Raise):
+                    ctx.ok(inst2, m.loc(hd), 're-raised', nontrivial=False)
+                    continue
+                helpers = [(c, tg) for s_ in hd.body for c in ast.walk(s_) if isinstance(c, ast.Call) for tg in P.resolve_call(m, c).targets if tg.owner_cls is rf]
+                problems = []
+                if not helpers:
+                    problems.append('the handler neither re-raises nor calls a method that grows the file')
+                for c, hlp in helpers:
+                    a0 = c.args[0] if c.args else None
+                    def _is_cap(e):
+                        if isinstance(e, ast.Name):
+                            v_ = U.single_assign_value(m, e.id)
+                            e = v_ if v_ is not None else e
+                        return isinstance(e, ast.Call) and isinstance(e.func, ast.Attribute) and e.func.attr == 'size' and P.self_attr(e.func.value, m.self_name) == mm_attr
+                    if not (isinstance(a0, ast.BinOp) and isinstance(a0.op, ast.Sub) and unparse(a0.left) == unparse(rz[0].args[0]) and _is_cap(a0.right)):
+                        problems.append('`%s` is not called with (new size - current size)' % unparse(c))
+                        continue
+                    par = hlp.params[1] if len(hlp.params) > 1 else None
+                    hcfg = U.explorer(ctx, hlp).cfg
+                    grows = [U.node_containing(hcfg, w) for w in P.calls_in(hlp) if isinstance(w.func, ast.Attribute) and w.func.attr == 'write' and w.args
+                             and isinstance(w.args[0], ast.BinOp) and isinstance(w.args[0].op, ast.Mult)
+                             and any(isinstance(x, ast.Name) and x.id == par for x in (w.args[0].left, w.args[0].right))]
+                    remaps = [U.node_containing(hcfg, d) for d in ast.walk(hlp.node) if isinstance(d, ast.Assign) and P.self_attr(d.targets[0], hlp.self_name) == mm_attr
+                              and isinstance(d.value, ast.Call) and unparse(d.value.func).endswith('mmap')]
+                    if not grows or hcfg.exit.id in hcfg.reachable_from(hcfg.entry.id, avoid=[g.id for g in grows], follow_exc=False):
+                        problems.append('%s does not append `%s` bytes to the file on every path' % (hlp.qualname, par))
+                    elif not remaps or any(hcfg.exit.id in hcfg.reachable_from(g.id, avoid=[r.id for r in remaps], follow_exc=False) for g in grows):
+                        problems.append('%s does not map the grown file again' % hlp.qualname)
+                if problems:
+                    ctx.violation('%s:resize-fallback' % m.qualname, m.loc(hd), '; '.join(problems) + ': where mmap.resize() is not available the following slice store exceeds the '
+                                  'mapping and the record is not written', instance=inst2)
+                else:
+                    ctx.ok(inst2, m.loc(hd), 'helper appends the missing bytes and re-maps')
     ctx.expect_min(1)
 
 
@@ -959,3 +1052,46 @@ def r_commit_persisted_value(ctx):
                                   'it verified against the leader' % unparse(c.args[0]), instance=inst)
     ctx.require(n_sites >= 1, 'nobody hands the commit index to the journal')
     ctx.expect_min(1)
+
+
+@rule('R-commit-index-setter-only', 'the commit index a journal stores changes only through its setter, called by the owner of the '
+                                    'journal: no journal operation (append, drop, clear, timer) sets or rewrites it')
+def r_commit_index_setter_only(ctx):
+    """`the stored commit index is one that was actually set`: inside the journal classes the value lives in whatever
+    the setter writes from its parameter; any other method of the class that writes that store, or calls the setter
+    itself, stores a commit index nobody set."""
+    P = ctx.P
+    base = P.cls('Journal')
+    n_cls = 0
+    for ci in [base] + list(P.subclasses(base)):
+        setter = ci.methods.get('setRaftCommitIndex')
+        if setter is None or ci is base:
+            continue
+        n_cls += 1
+        par = setter.params[1] if len(setter.params) > 1 else None
+        store = set()
+        for a in P.accesses(setter):
+            if a.kind in ('write', 'elem_write') and par is not None and isinstance(a.node, ast.Assign) and any(isinstance(x, ast.Name) and x.id == par for x in ast.walk(a.node.value)):
+                store.add(a.attr)
+        inst = '%s: stored commit index written only by the setter' % ci.name
+        bad = False
+        for m in P.methods_of(ci):
+            if m is setter or m.name == '__init__' or m.owner_cls is not ci:
+                continue
+            ctx.tick()
+            for c in P.calls_in(m, include_nested=True):
+                if setter in P.resolve_call(m, c).targets:
+                    bad = True
+                    ctx.violation('%s:journal-operation-sets-commit-index' % m.qualname, m.loc(c),
+                                  '`%s`: a journal operation overwrites the stored commit index with a value its owner never set (the owner reads it back after a restart)' % unparse(c),
+                                  instance=inst)
+            for a in P.accesses(m):
+                if a.attr in store and a.kind in ('write', 'elem_write', 'del', 'mutcall', 'aug'):
+                    # rewriting the whole store from the loaded file is the loader's business (__init__), nothing else's
+                    bad = True
+                    ctx.violation('%s:journal-operation-rewrites-commit-store' % m.qualname, m.loc(a.node),
+                                  '`%s` changes self.%s, where the setter keeps the commit index' % (unparse(a.node)[:60], a.attr), instance=inst)
+        if not bad:
+            ctx.ok(inst, setter.loc(), 'store %s; no other method writes it or calls the setter' % (sorted(store) or 'none (value not kept)'))
+    ctx.require(n_cls >= 2, 'journal implementations with a commit-index setter not found')
+    ctx.expect_min(2)
